@@ -68,11 +68,11 @@ use messages::*;
 pub mod actor_cell;
 pub mod actor_id;
 pub(crate) mod actor_properties;
-#[cfg(slawlor_ractor_verif)]
-pub mod verif;
 pub mod actor_ref;
 pub mod derived_actor;
 mod supervision;
+#[cfg(slawlor_ractor_verif)]
+pub mod verif;
 
 #[cfg(test)]
 mod supervision_tests;
